@@ -173,6 +173,16 @@ func callHelper(c *girc.Client, name string, a []string) {
 		c.Cmd.Pong(arg(0))
 	case "SendRaw":
 		_ = c.Cmd.SendRaw(a...)
+	case "TemplateMessage": // an application that builds its messages from one measured template (Len is documented for trimming)
+		tmpl := &girc.Event{Command: girc.PRIVMSG, Params: []string{arg(0), ""}}
+		room := 400 - tmpl.Len()
+		e := *tmpl
+		text := arg(1)
+		if len(text) > room {
+			text = text[:room]
+		}
+		e.Params = []string{arg(0), text}
+		c.Send(&e)
 	case "SendCTCP":
 		func() {
 			defer func() { recover() }()
